@@ -11,6 +11,7 @@ HARNESS = ("h_alloc", ["h_alloc.cpp"], {})
 INLINE = 3          # "carrying up to three ready coroutines in a suspend point" (property statement)
 MAXID = 160
 KINDS = "ved"
+BIND_SIZES = [4, 32, 48, 64, 200]
 
 EV_RE = re.compile(r"^([af]):([a-z-]+)([+-])(\d+)$")
 
@@ -154,9 +155,14 @@ def gen_random(rng, heap_p=0.6, nops=None, small=False):
             pool = b.futs + b.mainonly + b.bound
             if pool:
                 b.lines.append("bw %d" % rng.choice(pool))
-        elif r < 0.60:
+        elif r < 0.59:
             if b.mainonly:
                 b.lines.append("del %d" % rng.choice(b.mainonly))
+        elif r < 0.60:
+            pool = b.futs + b.mainonly + b.bindable
+            if pool:
+                i = rng.choice(pool)
+                b.lines.append(rng.choice(["bd %d %d" % (i, rng.choice(BIND_SIZES)), "bi %d" % i, "bi %d" % i, "bx %d" % i]))
         elif r < 0.68:
             b.lines.append("%s %d" % (rng.choice(["tl", "ul"]), rng.randint(0, 1)))
         elif r < 0.78:
@@ -262,6 +268,54 @@ def gen_sp(rng):
         else:
             b.lines.append("sf %d" % rng.choice([0, 0, 1]))
     return b.case()
+
+
+def gen_bind(rng, thr="m"):
+    """promise::bind: the promise and a value of 4..200 bytes move into a callable; the callable is invoked (on the same
+    thread, also with a real thread blocked in sync() on the future), invoked twice, destroyed unused, or left to `end`"""
+    b = Builder(rng, rng.choice([0.0, 0.6, 1.0]))
+    ops = []
+    for _ in range(rng.randint(1, 3)):
+        f = b.new_fut(b.futs)
+        pre = []
+        for _ in range(rng.choice([0, 0, 1, 1, 2, 3, 4])):
+            kind = rng.random()
+            if kind < 0.5:
+                acts = ["a%d" % f] + rng.choice([[], [], ["y"], ["p"]])
+                pre.append("co %d %s - %s" % (b.nco, b.storage(), ",".join(acts)))
+                b.nco += 1
+            elif kind < 0.65:
+                pre.append("cb %d" % f)
+            elif kind < 0.8:
+                pre.append("bs %d" % f)
+            else:
+                pre.append("bt %d" % f)
+        bind = "bd %d %d" % (f, rng.choice(BIND_SIZES))
+        pos = rng.randint(0, len(pre))
+        seq = pre[:pos] + [bind] + pre[pos:]
+        r = rng.random()
+        if r < 0.55:
+            seq.append("bi %d" % f)
+            if rng.random() < 0.3:
+                seq.append("bi %d" % f)
+            if rng.random() < 0.5:
+                seq.append("bx %d" % f)
+        elif r < 0.8:
+            seq.append("bx %d" % f)
+        if rng.random() < 0.3:
+            seq.insert(rng.randint(0, len(seq)), "res %d %s" % (f, rng.choice("vedx")))
+        if rng.random() < 0.5:
+            seq.append("bw %d" % f)
+        if rng.random() < 0.2:
+            seq.append("bd %d %d" % (f, rng.choice(BIND_SIZES)))
+        ops.append(seq)
+    # interleave the per-future sequences, keeping each one's order
+    while ops:
+        seq = rng.choice(ops)
+        b.lines.append(seq.pop(0))
+        if not seq:
+            ops.remove(seq)
+    return b.case(thr=thr)
 
 
 def gen_merge(rng):
@@ -434,8 +488,10 @@ class AllocSuite(Suite):
                 c = gen_mutex(rng)
             elif r < 0.74:
                 c = gen_sp(rng)
-            elif r < 0.79:
+            elif r < 0.77:
                 c = gen_merge(rng)
+            elif r < 0.79:
+                c = gen_bind(rng)
             elif r < 0.86:
                 c = gen_generator(rng)
             elif r < 0.97:
